@@ -104,3 +104,12 @@ Example css_nesting_is :
   /\ css_compile (css_fset_of [CNesting; CIsPseudoClass]) [CNesting] = []
   /\ css_compile (css_fset_of [CColorFunctions; CHexRGBA]) [CColorFunctions] = [CColorFunctions].
 Proof. vm_compute. repeat split; reflexivity. Qed.
+
+(* minify_introduces_only_supported: the null-check rewrite writes ?. only when it is supported *)
+Example optional_chain_rewrite :
+  let r := ("a != null ? a.b.c : undefined  =>  a?.b.c", "MangleIfExpr", FOptionalChain)%string in
+  existsb (fun x => feature_eqb (snd x) FOptionalChain && String.eqb (snd (fst x)) "MangleIfExpr") introducing_rewrites = true
+  /\ rewrite_writes (fset_of [FOptionalChain]) r = []
+  /\ rewrite_writes (fset_of [FNullishCoalescing]) r = [FOptionalChain]
+  /\ count_has_not "MangleIfExpr" FOptionalChain = 1.
+Proof. vm_compute. repeat split; reflexivity. Qed.
